@@ -106,6 +106,8 @@ class IntrospectDriver:
                 del self.ki[n]
         self.objs = []        # (real object, declared)
         self.result = ()
+        self.kept = []        # (list object returned by an earlier parse, what it held then): results are values -
+                              # a proxy keeps the list it was built from, later parses must not change it
         if init_objs:
             for o in init_objs:
                 d = o
@@ -141,8 +143,14 @@ class IntrospectDriver:
                 self.objs.append((r, False))
                 out.append(len(self.objs))
         self.result = tuple(out)
+        self.kept.append((res, [id(r) for r in res], [r.name for r in res]))
 
     def project(self):
+        for res, ids, names in self.kept:
+            if [id(r) for r in res] != ids or [r.name for r in res] != names:
+                # an earlier result changed after it was handed out: not a value of the model
+                return {'objs': tuple(project_iface(o, dcl) for o, dcl in self.objs), 'known': {},
+                        'result': ('earlier result mutated', tuple(names), tuple(r.name for r in res))}
         known = {}
         for n, o in self.ki.items():
             if n.startswith('org.freedesktop.DBus'):
